@@ -49,6 +49,41 @@ theorem unknown_field_ignored_lazy (env : Env) (fuel : Nat) (n : String) (sd : S
   · rw [fromWire_unknown_field_ignored env fuel n sd hsd fs₁ fs₂ id w h]
     exact hok
 
+/-- Boolean form of `Foreign`. -/
+def isForeign (fields : List Field) (p : UInt16 × WValue) : Bool :=
+  (fields.find? (fun f => f.id == p.1 && f.ty.code == p.2.tcode)).isNone
+
+theorem isForeign_iff (fields : List Field) (id : UInt16) (w : WValue) :
+    isForeign fields (id, w) = true ↔ Foreign fields id w := by
+  simp [isForeign, Foreign]
+
+/-- Any number of foreign fields, anywhere in the message: deleting every field that is unknown or
+retyped (after any prefix `pre`) does not change what the value path returns — success, value or
+error alike. -/
+theorem all_foreign_fields_ignored (env : Env) (fuel : Nat) (n : String) (sd : StructDef)
+    (hsd : env.find n = some sd) (pre ws : List (UInt16 × WValue)) :
+    fromWire env (fuel + 1) (.struct n) (.struct (pre ++ ws)) =
+    fromWire env (fuel + 1) (.struct n) (.struct (pre ++ ws.filter (fun p => !isForeign sd.fields p))) := by
+  induction ws generalizing pre with
+  | nil => simp
+  | cons p ws ih =>
+    obtain ⟨id, w⟩ := p
+    cases hf : isForeign sd.fields (id, w)
+    · have : pre ++ (id, w) :: ws = (pre ++ [(id, w)]) ++ ws := by simp
+      rw [List.filter_cons_of_pos (by simp [hf]), this, ih (pre ++ [(id, w)])]
+      simp
+    · rw [List.filter_cons_of_neg (by simp [hf]),
+          unknown_field_ignored env fuel n sd hsd pre ws id w ((isForeign_iff _ _ _).1 hf)]
+      exact ih pre
+
+/-- So the result is a function of the known, correctly typed fields alone: a writer with a newer
+or older schema may add, drop or retype any number of other fields. -/
+theorem only_known_fields_matter (env : Env) (fuel : Nat) (n : String) (sd : StructDef)
+    (hsd : env.find n = some sd) (ws : List (UInt16 × WValue)) :
+    fromWire env (fuel + 1) (.struct n) (.struct ws) =
+    fromWire env (fuel + 1) (.struct n) (.struct (ws.filter (fun p => !isForeign sd.fields p))) := by
+  simpa using all_foreign_fields_ignored env fuel n sd hsd [] ws
+
 /-- Absent fields: an optional field without default stays unset, one with a default takes
 it, and a required field without default makes decoding fail. -/
 theorem absent_field (f : Field) (fs : List Field) (ss : FState) :
